@@ -285,12 +285,16 @@ def run_numeric(ctx, reg: Registration, ranges) -> AV:
     return ne.function_value(reg.fn, {}, ne.depth)
 
 
-def r16a(ctx, specs):
-    ctx._c16_summaries = {
-        ctx.repo.cls('ComputeOxUnrollSTE').qualname + '.forward': ox_unroll_summary(ctx)}
+def r16a(ctx, specs, rule='R16a', only=None):
+    ctx._c16_summaries = {}
+    if only is None or 'diana_latency' in only:
+        ctx._c16_summaries = {
+            ctx.repo.cls('ComputeOxUnrollSTE').qualname + '.forward': ox_unroll_summary(ctx)}
     n = 0
     undecided = []
     for sname, si in sorted(specs.items()):
+        if only is not None and sname not in only:
+            continue
         for reg in si.regs:
             n += 1
             loc = f'{reg.module.relpath}:{reg.fn.node.lineno}'
@@ -323,7 +327,7 @@ def r16a(ctx, specs):
                         z = run_numeric(ctx, reg, dict(ranges(), wtheta=(0.0, 0.0)))
                     except NumError:
                         z = AV(-INF, INF)
-                    ctx.ob('R16a', f'{lbl} zero share costs nothing', z.lo == 0 and z.hi == 0,
+                    ctx.ob(rule, f'{lbl} zero share costs nothing', z.lo == 0 and z.hi == 0,
                            'w_theta_alpha == 0 returns 0 before the model divides by it'
                            if z.lo == 0 and z.hi == 0 else
                            f'with no channel at this precision the function does not return 0 '
@@ -334,7 +338,7 @@ def r16a(ctx, specs):
                     msg = str(e)
                     if 'division by a value whose sign is not constant' in msg or \
                             'may be <= 0' in msg:
-                        ctx.ob('R16a', f'{lbl} finite', False,
+                        ctx.ob(rule, f'{lbl} finite', False,
                                f'{reg.fn.name}: {msg} for some valid layer description', loc)
                         decided += 1
                         continue
@@ -343,8 +347,8 @@ def r16a(ctx, specs):
                 decided += 1
                 if v.kind != 'num':
                     raise AnalysisError(f'R16a: {reg.fn.qualname} returns a non-numeric value')
-                ctx.ob('R16a', f'{lbl} finite', True, 'no division by a possibly-zero value', loc)
-                ctx.ob('R16a', f'{lbl} non-negative', v.lo >= 0,
+                ctx.ob(rule, f'{lbl} finite', True, 'no division by a possibly-zero value', loc)
+                ctx.ob(rule, f'{lbl} non-negative', v.lo >= 0,
                        f'value in [{v.lo}, {v.hi}]' if v.lo >= 0 else
                        f'{reg.fn.name} can return a negative value (abstract range '
                        f'[{v.lo}, {v.hi}]) for a valid layer description', loc)
@@ -352,7 +356,7 @@ def r16a(ctx, specs):
                     if x in override:
                         continue        # fixed in this world
                     dx = v.d(x)
-                    ctx.ob('R16a', f'{lbl} monotone in {x}', dx in (0, 1),
+                    ctx.ob(rule, f'{lbl} monotone in {x}', dx in (0, 1),
                            ('independent of' if dx == 0 else 'non-decreasing in') + f' {x}'
                            if dx in (0, 1) else
                            f'{reg.fn.name} is not provably non-decreasing in {NAMES[x]} '
@@ -361,7 +365,7 @@ def r16a(ctx, specs):
                 if sname in BIT_MONOTONE_SPECS:
                     for x in ('wbits', 'abits'):
                         dx = v.d(x)
-                        ctx.ob('R16a', f'{lbl} monotone in {x}', dx in (0, 1),
+                        ctx.ob(rule, f'{lbl} monotone in {x}', dx in (0, 1),
                                ('independent of' if dx == 0 else 'non-decreasing in') + f' {x}'
                                if dx in (0, 1) else
                                f'{reg.fn.name} is not provably non-decreasing in the '
@@ -370,7 +374,7 @@ def r16a(ctx, specs):
                 # strictly positive for a non-empty layer at non-zero bit-widths
                 try:
                     vp = run_numeric(ctx, reg, ranges(wbits=(2.0, 8.0)))
-                    ctx.ob('R16a', f'{lbl} positive', vp.lo > 0,
+                    ctx.ob(rule, f'{lbl} positive', vp.lo > 0,
                            f'value >= {vp.lo} > 0' if vp.lo > 0 else
                            f'{reg.fn.name} can be 0 for a non-empty layer at non-zero bit-widths '
                            f'(abstract lower bound {vp.lo})', loc)
@@ -378,7 +382,7 @@ def r16a(ctx, specs):
                     raise AnalysisError(f'R16a: {reg.fn.qualname}: {e}')
             if decided == 0:
                 raise AnalysisError(f'R16a: {reg.fn.qualname} accepts no kernel shape')
-    ctx.floor('R16a', 'cost registrations', n, 48)
+    ctx.floor(rule, 'cost registrations', n, 48 if only is None else 3)
     ctx.count('R16a:not interpreted', len(undecided))
     ctx.note('R16a: the NE16 model accepts only 1x1 and 3x3 kernels (asserted by the cost '
              'functions); each accepted shape is decided separately, the comparison 1x1 vs 3x3 '
